@@ -213,6 +213,120 @@ void h_next_run(void) {
 }
 #endif
 
+/* ================================================================== C15 / C09: reclaim decision logic ==== */
+#if defined(HARNESS_h_try_reclaim) || defined(HARNESS_h_reclaim_all) || defined(HARNESS_h_attempt_reclaim) || defined(HARNESS_h_abandoned_collect)
+/* The decision logic of segment.c that adopts abandoned segments runs for real; the cursor over abandoned segments, the
+   page-level work (mi_segment_check_free, mi_segment_reclaim) and the abandoned markers are recording stubs.
+   Up to NSEG abandoned segments with arbitrary memid (OS, arena exclusive or not, any arena id), used count, visits. */
+#define NSEG 3
+/* only the segment header (everything before the slice map) is needed by the decision logic: the objects are cut there so
+   that symbolic segment pointers stay small (a full mi_segment_t is 50 KiB) */
+#include <stddef.h>
+#define SEGHDR_WORDS ((offsetof(mi_segment_t, slices) + 7) / 8)
+static uint64_t SEGRAW[NSEG][SEGHDR_WORDS];
+#define SEGP(i) ((mi_segment_t*)&SEGRAW[i][0])
+static mi_heap_t RHEAP; static mi_tld_t RTLD; static mi_subproc_t RSUB, OTHERSUB;
+static int cur_next, n_avail;
+static uint8_t fate[NSEG];              /* 0 untouched / still with the cursor, 1 reclaimed, 2 re-marked abandoned */
+static int n_reclaim_calls;
+static bool suitable_ref(mi_memid_t memid, mi_arena_id_t req) {      /* = _mi_arena_memid_is_suitable (decided by C15.suitable) */
+  if (memid.memkind == MI_MEM_ARENA) return ((!memid.mem.arena.is_exclusive && req == 0) || memid.mem.arena.id == req);
+  return (req == 0);
+}
+bool _mi_heap_memid_is_suitable(mi_heap_t* heap, mi_memid_t memid) { return suitable_ref(memid, heap->arena_id); }
+void _mi_arena_field_cursor_init(mi_heap_t* heap, mi_subproc_t* subproc, bool visit_all, mi_arena_field_cursor_t* current) { cur_next = 0; current->subproc = subproc; current->visit_all = visit_all; }
+void _mi_arena_field_cursor_done(mi_arena_field_cursor_t* current) { }
+mi_segment_t* _mi_arena_segment_clear_abandoned_next(mi_arena_field_cursor_t* previous) {
+  if (cur_next >= n_avail) return NULL;
+  mi_segment_t* s = SEGP(cur_next); cur_next++;
+  s->thread_id = 0;
+  return s;                              /* the cursor only returns segments of the caller's sub-process */
+}
+static int seg_index(mi_segment_t* s) { for (int i = 0; i < NSEG; i++) if (s == SEGP(i)) return i; return -1; }
+void _mi_arena_segment_mark_abandoned(mi_segment_t* segment) { int i = seg_index(segment); CHECK(i >= 0 && fate[i] == 0, "a segment is re-marked at most once and never after it was reclaimed"); if (i >= 0) fate[i] = 2; }
+static bool clear_wins;
+bool _mi_arena_segment_clear_abandoned(mi_segment_t* segment) { return clear_wins; }
+bool stub_check_free(mi_segment_t* segment, size_t slices_needed, size_t block_size, mi_segments_tld_t* tld) {
+  if (nd_bool()) segment->used = 0;        /* concurrent frees may have emptied it */
+  return nd_bool();
+}
+mi_segment_t* stub_segment_reclaim(mi_segment_t* segment, mi_heap_t* heap, size_t requested_block_size, bool* right_page_reclaimed, mi_segments_tld_t* tld) {
+  int i = seg_index(segment); n_reclaim_calls++;
+  CHECK(i >= 0 && fate[i] == 0, "a segment is reclaimed at most once");
+  CHECK(segment->subproc == tld->subproc, "C09: adoption only within the same sub-process");
+  CHECK(segment->used == 0 || suitable_ref(segment->memid, heap->arena_id), "C15: a segment that still holds live blocks is only adopted by a heap it is suitable for (exclusive arenas stay private)");
+  if (i >= 0) fate[i] = 1;
+  if (right_page_reclaimed != NULL) *right_page_reclaimed = nd_bool();
+  return (nd_bool() ? segment : NULL);
+}
+void stub_segment_try_purge(mi_segment_t* segment, bool force) { }
+long _mi_option_get_fast(mi_option_t o) { return mi_option_get(o); }
+long mi_option_get_clamp(mi_option_t o, long lo, long hi) { long v = nd_long(); ASSUME(v >= lo && v <= hi); return v; }
+static void make_reclaim_state(void) {
+  RHEAP.tld = &RTLD; RTLD.segments.subproc = &RSUB; RHEAP.arena_id = (mi_arena_id_t)(nd_u8() % 3);
+  RTLD.segments.count = nd_size() % 8; RTLD.segments.reclaim_count = nd_size() % 8;
+  RSUB.abandoned_count = nd_size() % 12;
+  n_avail = nd_u8() % (NSEG + 1);
+  for (int i = 0; i < NSEG; i++) {
+    mi_segment_t* s = SEGP(i);
+    s->subproc = &RSUB; s->thread_id = 0; s->abandoned_visits = nd_u8() % 6; s->used = 1 + nd_u8() % 3;
+    uint8_t k = nd_u8() % 3;
+    if (k == 0) s->memid = _mi_memid_create(MI_MEM_OS);
+    else { s->memid = _mi_memid_create(MI_MEM_ARENA); s->memid.mem.arena.id = 1 + (nd_u8() % 2); s->memid.mem.arena.is_exclusive = nd_bool(); s->memid.mem.arena.block_index = i; }
+    fate[i] = 0;
+  }
+}
+#endif
+
+#ifdef HARNESS_h_try_reclaim
+void h_try_reclaim(void) {
+  make_reclaim_state();
+  bool reclaimed = false;
+  size_t bsize = nd_size() % 1024;
+  mi_segment_t* r = mi_segment_try_reclaim(&RHEAP, 1, bsize, &reclaimed, &RTLD.segments);
+  for (int i = 0; i < NSEG; i++) { if (i < cur_next) CHECK(fate[i] != 0, "C09: every abandoned segment taken from the cursor is either adopted or put back (never dropped)"); else CHECK(fate[i] == 0, "segments not visited are untouched"); }
+  if (r != NULL) { int i = seg_index(r); CHECK(i >= 0 && fate[i] == 1 && suitable_ref(r->memid, RHEAP.arena_id), "C15: the segment handed to the allocating heap is suitable for it"); WITNESS("result"); }
+  if (n_reclaim_calls > 0) WITNESS("reclaimed"); 
+  WITNESS("end");
+}
+#endif
+
+#ifdef HARNESS_h_reclaim_all
+/* forced collect on the main thread */
+void h_reclaim_all(void) {
+  make_reclaim_state();
+  _mi_abandoned_reclaim_all(&RHEAP, &RTLD.segments);
+  for (int i = 0; i < NSEG; i++) { if (i < n_avail) CHECK(fate[i] != 0, "C09: every abandoned segment is adopted or put back"); }
+  if (n_reclaim_calls > 0) WITNESS("reclaimed");
+  WITNESS("end");
+}
+#endif
+
+#ifdef HARNESS_h_abandoned_collect
+void h_abandoned_collect(void) {
+  make_reclaim_state();
+  _mi_abandoned_collect(&RHEAP, nd_bool(), &RTLD.segments);
+  for (int i = 0; i < NSEG; i++) { if (i < cur_next) CHECK(fate[i] != 0, "C09: every abandoned segment taken from the cursor is freed (adopted empty) or put back"); }
+  WITNESS("end");
+}
+#endif
+
+#ifdef HARNESS_h_attempt_reclaim
+/* reclaim-on-free */
+void h_attempt_reclaim(void) {
+  make_reclaim_state();
+  mi_segment_t* s = SEGP(0);
+  s->thread_id = nd_bool() ? 0 : 0x99; s->subproc = nd_bool() ? &RSUB : &OTHERSUB;
+  clear_wins = nd_bool();
+  opt_delay = 0;
+  bool r = _mi_segment_attempt_reclaim(&RHEAP, s);
+  if (r) { CHECK(fate[0] == 1 && clear_wins, "adopted only when this thread won the atomic claim"); CHECK(s->subproc == &RSUB, "C09: reclaim-on-free only within the same sub-process"); WITNESS("adopted"); }
+  else CHECK(fate[0] == 0 || fate[0] == 1, "not adopted");
+  if (s->thread_id != 0 && !r) WITNESS("not abandoned");
+  WITNESS("end");
+}
+#endif
+
 #ifdef VERIF_REPLAY
 int main(void) { VERIF_ENTRY(); return 0; }
 #endif
